@@ -27,7 +27,11 @@ package harness
 //      through the real keeper / the real message handler; compared with the counted transcription
 //      of findAuthzGrantee (Metadata/AuthzCount.v), NOT with the main model (which assumes generic
 //      authorizations);
-//   7. the concrete witnesses of the Coq observations run on the real code.
+//   7. the concrete witnesses of the Coq observations run on the real code;
+//   8. MsgWriteScope on an existing scope WITH a value owner: the value owner changes together with
+//      (a) nothing else, (b) only optional flags of existing owners, (c) roles / owners, (d) data
+//      access, specification id or rollup flag, or does not change; signed by the value owner only,
+//      by the required parties only, by both, or by both with one missing / replaced by a grant.
 //
 // Accounts: ids 1,2 have no account, 3 is a BaseAccount with sequence 7, 4 a BaseAccount with a
 // public key, 5 and 6 are BaseAccounts with sequence 0 and no public key — which is exactly what
@@ -697,6 +701,7 @@ func (e *c10Env) outerCase(t *testing.T, which int) {
 	var op, name string
 	var kind int
 	var needed, extra []int
+	dropAddr := 0 // an address that must neither sign nor have granted (targeted omission)
 	var build func(signers []int) c10VB
 	setup := func(ctx sdk.Context) {}
 	setSpecs := func(ctx sdk.Context, sroles, croles, rroles []int, withS, withR bool) {
@@ -812,6 +817,9 @@ func (e *c10Env) outerCase(t *testing.T, which int) {
 			}
 		} else {
 			rm := owners[r.Intn(len(owners))].a
+			if r.Intn(3) == 0 { // the owner being removed is the one whose signature is missing
+				dropAddr = rm
+			}
 			for _, p := range owners {
 				if p.a != rm {
 					proposed = append(proposed, p)
@@ -969,6 +977,21 @@ func (e *c10Env) outerCase(t *testing.T, which int) {
 		needed = c10Addrs(owners)
 	}
 	signers, grants := e.signersFor(kind, dedupInts(needed), extra)
+	if dropAddr != 0 {
+		var sg []int
+		for _, a := range signers {
+			if a != dropAddr {
+				sg = append(sg, a)
+			}
+		}
+		var gs []c10Grant
+		for _, g := range grants {
+			if g.granter != dropAddr {
+				gs = append(gs, g)
+			}
+		}
+		signers, grants = sg, gs
+	}
 	if len(signers) == 0 {
 		signers = []int{1 + r.Intn(4)}
 	}
@@ -1440,6 +1463,162 @@ func (e *c10Env) countCase(t *testing.T, i int) {
 	e.w.Nontrivial(term)
 }
 
+// ---------- MsgWriteScope on an existing scope with a value owner ----------
+
+var c10SSpecU2 = uuid.MustParse("c1000000-0000-4000-8000-000000000022")
+
+func c10SV(spec int, owners []c10Party, data []int, vo int, rollup bool) string {
+	return fmt.Sprintf("(SV %d %s %s %s %s)", spec, c10Parties(owners), c10Ints(data), coqOpt(vo != 0, fmt.Sprint(vo)), coqBool(rollup))
+}
+
+func (e *c10Env) voScopeCase(t *testing.T, i int) {
+	r := e.r
+	k := e.app.MetadataKeeper
+	rollup := r.Intn(3) != 0
+	owners := e.randParties(1+r.Intn(3), true, false, rollup)
+	exData := []int{}
+	if r.Intn(2) == 0 {
+		exData = []int{2}
+	}
+	exVO := e.pick([]int{3, 4, 3, 4, 3, 4, 3, 4, 1, 5, 0})
+	sroles := e.rolesFrom(owners, 2)
+	specIDs := map[int]mdtypes.MetadataAddress{1: c10SSpecID(), 2: mdtypes.ScopeSpecMetadataAddress(c10SSpecU2)}
+
+	// the proposal
+	prOwners := append([]c10Party{}, owners...)
+	prData := append([]int{}, exData...)
+	prSpec, prRollup := 1, rollup
+	mode := i % 6
+	switch mode {
+	case 0: // (a) nothing but the value owner; owners possibly listed in another order
+		if r.Intn(2) == 0 {
+			r.Shuffle(len(prOwners), func(a, b int) { prOwners[a], prOwners[b] = prOwners[b], prOwners[a] })
+		}
+	case 1: // (b) only optional flags of existing owners
+		n := 0
+		for j := range prOwners {
+			if r.Intn(2) == 0 || (j == len(prOwners)-1 && n == 0) {
+				prOwners[j].opt = !prOwners[j].opt
+				n++
+			}
+		}
+	case 2: // (c) a role, an added or a removed owner
+		switch r.Intn(3) {
+		case 0:
+			j := r.Intn(len(prOwners))
+			prOwners[j].role = e.pick([]int{c10Owner, c10Servicer, c10Controller, 3})
+			prOwners = uniqueParties(prOwners)
+		case 1:
+			prOwners = uniqueParties(append(prOwners, e.randParties(1, true, false, rollup)...))
+		default:
+			if len(prOwners) > 1 {
+				prOwners = prOwners[1:]
+			} else {
+				prOwners[0].a = 1 + r.Intn(4)
+			}
+		}
+	case 3: // (d) data access, specification id or rollup flag
+		switch r.Intn(4) {
+		case 0:
+			prData = append(prData, 3)
+		case 1:
+			if len(prData) > 0 {
+				prData = nil
+			} else {
+				prData = []int{4}
+			}
+		case 2:
+			prSpec = 2
+		default:
+			prRollup = !rollup
+			if !prRollup {
+				for j := range prOwners {
+					prOwners[j].opt = false
+				}
+			}
+		}
+	default: // 4, 5: nothing changes besides (perhaps) the value owner, which may also stay or be left empty
+	}
+	prVO := 7
+	switch x := r.Intn(12); {
+	case mode >= 4 && x < 4:
+		prVO = exVO // unchanged (or both empty)
+	case mode >= 4 && x < 7:
+		prVO = 0 // field left empty
+	case x < 2:
+		prVO = 1 + r.Intn(4)
+	}
+	specRoles := sroles
+	roles2 := e.rolesFrom(owners, 2)
+	if prSpec == 2 {
+		specRoles = roles2
+	}
+	op := fmt.Sprintf("OWriteScopeFull %s %s %s", c10SV(1, owners, exData, exVO, rollup), c10SV(prSpec, prOwners, prData, prVO, prRollup), c10Ints(specRoles))
+	setup := func(ctx sdk.Context) {
+		e.fxSpecs(ctx, sroles, nil, nil, true, false)
+		k.SetScopeSpecification(ctx, mdtypes.ScopeSpecification{SpecificationId: specIDs[2], OwnerAddresses: []string{e.addrs[1].String()},
+			PartiesInvolved: e.roles(roles2), ContractSpecIds: []mdtypes.MetadataAddress{c10CSpecID()}})
+		if err := k.SetScope(ctx, mdtypes.Scope{ScopeId: c10ScopeID(), SpecificationId: specIDs[1], Owners: e.parties(owners),
+			DataAccess: e.strs(exData), RequirePartyRollup: rollup}); err != nil {
+			t.Fatalf("set scope: %v", err)
+		}
+		if exVO != 0 {
+			if err := k.SetScopeValueOwner(ctx, c10ScopeID(), e.addrs[exVO].String()); err != nil {
+				t.Fatalf("set value owner: %v", err)
+			}
+		}
+	}
+	build := func(sg []int) c10VB {
+		sc := mdtypes.Scope{ScopeId: c10ScopeID(), SpecificationId: specIDs[prSpec], Owners: e.parties(prOwners),
+			DataAccess: e.strs(prData), RequirePartyRollup: prRollup}
+		if prVO != 0 {
+			sc.ValueOwnerAddress = e.addrs[prVO].String()
+		}
+		return &mdtypes.MsgWriteScopeRequest{Scope: sc, Signers: e.strs(sg)}
+	}
+	// who signs
+	partyNeed := dedupInts(e.neededAddrs(ifRollup(rollup, owners), owners, ifRollupI(rollup, specRoles)))
+	var signers []int
+	var grants []c10Grant
+	strategy := ""
+	switch x := r.Intn(10); {
+	case x < 3:
+		strategy = "value_owner_only"
+		if exVO != 0 {
+			signers = []int{exVO}
+		} else {
+			signers = []int{1 + r.Intn(4)}
+		}
+	case x < 5:
+		strategy = "parties_only"
+		signers = partyNeed
+	case x < 8:
+		strategy = "both"
+		if exVO != 0 {
+			signers = append([]int{exVO}, partyNeed...)
+		} else {
+			signers = partyNeed
+		}
+		signers = dedupInts(signers)
+	default:
+		strategy = "mixed"
+		need := partyNeed
+		if exVO != 0 {
+			need = dedupInts(append([]int{exVO}, partyNeed...))
+		}
+		signers, grants = e.signersFor(1, need, nil)
+	}
+	if len(signers) == 0 {
+		signers = []int{1 + r.Intn(4)}
+	}
+	ok := e.emitOuter(t, 1, "WriteScopeVO", op, setup, build, signers, grants, "vo")
+	key := fmt.Sprintf("vo_mode%d_%s", mode, strategy)
+	e.w.Count(key)
+	if ok {
+		e.w.Count(key + "_accepted")
+	}
+}
+
 // ---------- the concrete witnesses of the Coq observations, on the real code ----------
 
 func (e *c10Env) witnessCases(t *testing.T) {
@@ -1565,10 +1744,14 @@ func TestC10(t *testing.T) {
 	for i := 0; i < nCount; i++ {
 		e.countCase(t, i)
 	}
+	nVO := scale(900, 12000)
+	for i := 0; i < nVO; i++ {
+		e.voScopeCase(t, i)
+	}
 	e.witnessCases(t)
 	for _, key := range []string{"count/without", "count/message", "overlap/WriteRecord/accepted=false", "overlap/WriteSession/accepted=true",
 		"msg/UpdateValueOwners/accepted=true", "msg/AddScopeDataAccess/accepted=true", "msg/DeleteScopeDataAccess/accepted=false",
-		"witness/UpdateValueOwners/accepted=false", "msg/WriteRecord/accepted=true"} {
+		"vo/WriteScopeVO/accepted=false", "witness/UpdateValueOwners/accepted=false", "msg/WriteRecord/accepted=true"} {
 		if d, ok := e.samples[key]; ok {
 			b, err := json.Marshal(d)
 			if err != nil {
